@@ -22,11 +22,20 @@ pub fn system_time_to_local(time: std::time::SystemTime) -> Option<NaiveDateTime
         }
     };
 
-    match Local.timestamp_opt(secs, nanos) {
-        chrono::LocalResult::Single(dt) => Some(dt.naive_local()),
-        chrono::LocalResult::Ambiguous(dt, _) => Some(dt.naive_local()),
-        chrono::LocalResult::None => None,
+    // a zone whose offset is a whole day (TZ=XXX-24) is more than the library can express: it
+    // gives up by panicking, and the time is shown in UTC like that of any zone it cannot read
+    match crate::util::no_panic(|| Local.timestamp_opt(secs, nanos)) {
+        Some(chrono::LocalResult::Single(dt)) => Some(dt.naive_local()),
+        Some(chrono::LocalResult::Ambiguous(dt, _)) => Some(dt.naive_local()),
+        Some(chrono::LocalResult::None) => None,
+        None => chrono::DateTime::from_timestamp(secs, nanos).map(|dt| dt.naive_utc()),
     }
+}
+
+/// Today's date in the local time zone (see `system_time_to_local` for zones that are none).
+pub fn local_today() -> NaiveDate {
+    crate::util::no_panic(|| Local::now().date_naive())
+        .unwrap_or_else(|| chrono::Utc::now().date_naive())
 }
 
 /// The calendar date written inside a text, whatever follows it (`2024-02-29 1080p.mkv`):
@@ -51,7 +60,7 @@ pub fn parse_date(s: &str) -> Option<NaiveDate> {
 
 pub fn parse_datetime(s: &str) -> Result<(NaiveDateTime, NaiveDateTime), String> {
     if s == "today" {
-        let date = Local::now().date_naive();
+        let date = local_today();
         let start = date.and_hms_opt(0, 0, 0).unwrap();
         let finish = date.and_hms_opt(23, 59, 59).unwrap();
 
@@ -59,7 +68,7 @@ pub fn parse_datetime(s: &str) -> Result<(NaiveDateTime, NaiveDateTime), String>
     }
 
     if s == "yesterday" {
-        let date = Local::now().date_naive() - Duration::try_days(1).unwrap();
+        let date = local_today() - Duration::try_days(1).unwrap();
         let start = date.and_hms_opt(0, 0, 0).unwrap();
         let finish = date.and_hms_opt(23, 59, 59).unwrap();
 
@@ -165,7 +174,7 @@ pub fn parse_datetime(s: &str) -> Result<(NaiveDateTime, NaiveDateTime), String>
                     _ => return Err("Error parsing date/time value: ".to_string() + s),
                 };
                 let date = match Duration::try_days(days)
-                    .and_then(|offset| Local::now().date_naive().checked_add_signed(offset))
+                    .and_then(|offset| local_today().checked_add_signed(offset))
                 {
                     Some(date) => date,
                     None => return Err("Error parsing date/time value: ".to_string() + s),
